@@ -1143,4 +1143,19 @@ pub fn run(ctx: &mut Ctx) {
 	ctx.run_sub("raw_value_roundtrip", ctx.tier.pick(144000, 2400000), || (proptest::collection::vec(any::<u8>(), 0..600), prop_oneof![3 => Just(false), 1 => Just(true)]).prop_map(|(stream, wide)| RawCase { stream, wide }), raw_value);
 	ctx.run_sub("cross_read", ctx.tier.pick(48000, 800000), bytes_strategy, cross_read);
 	corpus(ctx);
+	// the largest constant pool a class file can have (constant_pool_count = 65535, i.e. 65534 entries) and the sizes just below
+	ctx.run_enum("full_constant_pool", |rec| {
+		for count in 65531usize..=65535 {
+			let mut obs = rec.obs();
+			let r = crate::engine::no_panic(|| -> PropResult {
+				let bytes = crate::props::c02::full_pool_class(count).ok_or("harness: cannot build the class")?;
+				bytes_roundtrip(&bytes, &mut obs)?;
+				obs.label(format!("constant_pool_count={count}"));
+				obs.nontrivial_if(true);
+				Ok(())
+			})
+			.and_then(|x| x);
+			rec.case(|| serde_json::json!({"constant_pool_count": count}), crate::engine::fnv64(format!("fullpool{count}").as_bytes()), obs, r);
+		}
+	});
 }
